@@ -59,6 +59,15 @@ def prefix_related_values(fam, rng):
     return fam
 
 
+def shuffle_tokens(fam, rng):
+    """values no longer increase with the source index: which source holds the dupsort-smallest value of a key is arbitrary"""
+    toks = sorted(set(t for src in fam for _, ts in src for t in ts))
+    perm = list(toks)
+    rng.shuffle(perm)
+    mp = dict(zip(toks, perm))
+    return [[(k, [mp[t] for t in ts]) for k, ts in src] for src in fam]
+
+
 def fam_to_tla(fam):
     def ent(k, toks):
         return "[k |-> %s, v |-> %s]" % (shapes.tla_bytes(k), shapes.tla_bytes(tok_bytes(toks)))
